@@ -37,7 +37,7 @@
      Dev_TimeStringEquality   only in its exact shape: red is the truth value of the comparison of the two INSTANTS
                               in the zone in force (= wantnode), and that differs from the evaluator's value
      time-fold                anything else (e.g. the instants compared in another zone)                      *)
-EXTENDS EvalSem, Json, CSV, IOUtils
+EXTENDS ReduceModel, Json, CSV, IOUtils
 
 VARIABLES l, st
 vars == <<l, st>>
@@ -54,12 +54,15 @@ OK == V(TRUE, "ok", "")
 AltOK(o, n) == /\ Has(o, "alts") /\ n \in DOMAIN o.alts /\ Has(o.alts[n], "v1") /\ ValEq(o.alts[n].v1, o.v0)
 NilShape(o) == /\ Has(o, "alts") /\ "n" \in DOMAIN o.alts /\ Has(o.alts["n"], "red") /\ o.alts["n"].red = o.red
 Dev_AsLiteralUnsignedNil(o) == NilShape(o) /\ (AltOK(o, "u") \/ AltOK(o, "us"))
-Dev_TimeStringEquality(o) == AltOK(o, "s")
+\* ... and only in its exact shape: the observed tree is what the design with the time-string comparison yields
+\* (both strings are time literals and were compared as instants); any other wrong answer on such strings is a violation
+ModelRed(r) == MReduce(r.tree, MapValuer(SelectSeq(r.binds, LAMBDA b : b.at = 1)), DevAll)
+Dev_TimeStringEquality(r, o) == AltOK(o, "s") /\ o.red = (IF Has(r, "mred") THEN r.mred ELSE ModelRed(r))
 
 ExprVerdict(r, o) ==
   IF ~ValEq(o.v1, o.v0) THEN
        IF NilShape(o) /\ AltOK(o, "u") THEN V(FALSE, "Dev_AsLiteralUnsignedNil", "")
-       ELSE IF Dev_TimeStringEquality(o) THEN V(FALSE, "Dev_TimeStringEquality", "")
+       ELSE IF Dev_TimeStringEquality(r, o) THEN V(FALSE, "Dev_TimeStringEquality", "")
        ELSE IF Dev_AsLiteralUnsignedNil(o) THEN V(FALSE, "Dev_AsLiteralUnsignedNil", "with time-string equality")
        ELSE V(FALSE, "value-differs", RootOp(r.tree) \o " reduced:" \o o.v1.t \o " direct:" \o o.v0.t)
   ELSE IF o.red2 # o.red THEN V(FALSE, "not-idempotent", RootOp(r.tree))
